@@ -113,7 +113,7 @@ def parse_output(res, job, out):
                 if job.get("memory_only"):
                     # C08 re-runs of other properties' drivers: value disagreements belong to those properties; only the
                     # memory-safety verdicts of the harnesses (guard bytes, writes outside a buffer) count here
-                    if not re.search(r"wrote|beyond|outside|guard|overran|buffer one byte|too-short|short buffer|not refused|exceed the precision", m.group(4)):
+                    if not re.search(r"wrote|beyond|outside|dangling|guard|overran|buffer one byte|too-short|short buffer|not refused|exceed the precision", m.group(4)):
                         continue
                     res.viols.append({"job": job, "kf": "-", "op": m.group(2), "args": m.group(3), "msg": m.group(4)})
                 else:
